@@ -289,9 +289,35 @@ def is_nontrivial(t):
     return any(mem) and not all(mem)
 
 
+def hidden_trees():
+    """Depth 3-5 trees in which a subformula sits inside a Boolean context that a semantic
+    shortcut could simplify away (false and x, true or x, false --> x, x and not x, ...), under
+    the wrappers each checker accepts.  If the subformula is outside the checker's logic the
+    whole formula is, whatever the context evaluates to: modelcheck must still raise TypeError."""
+    P, Q, T, F = fm.P, fm.Q, fm.TRUE, fm.FALSE
+    cores = [('E', ('X', P)), ('E', P), ('A', P), ('A', ('X', P)), ('X', P), ('G', P), ('U', P, Q),
+             ('A', ('F', ('G', P))), ('E', ('G', ('F', P))), ('A', ('U', ('X', P), Q)), ('not', ('X', P)),
+             ('A', ('and', ('X', P), Q))]
+    ctxs = [lambda x: ('and', F, x), lambda x: ('and', x, F), lambda x: ('and', T, x, F), lambda x: ('or', T, x),
+            lambda x: ('or', x, T), lambda x: ('imp', F, x), lambda x: ('imp', x, T), lambda x: ('and', x, ('not', x)),
+            lambda x: ('or', x, ('not', x)), lambda x: ('not', ('and', F, x)), lambda x: ('and', Q, x),
+            lambda x: ('not', ('not', x)), lambda x: ('imp', x, x), lambda x: ('and', F, ('or', T, x))]
+    wraps = [lambda x: x, lambda x: ('A', x), lambda x: ('A', ('X', x)), lambda x: ('A', ('G', x)),
+             lambda x: ('A', ('U', P, x)), lambda x: ('E', ('F', x)), lambda x: ('not', ('A', ('F', x))),
+             lambda x: ('A', ('F', ('and', Q, x))), lambda x: ('and', ('A', ('G', P)), x)]
+    out = []
+    for c in cores:
+        for h in ctxs:
+            for w in wraps:
+                out.append(w(h(c)))
+    return out
+
+
 def trees_for(payload):
     if payload['scope'] == 'd2':
         return fm.union_trees(2, (fm.TRUE, fm.P))
+    if payload['scope'] == 'hidden':
+        return hidden_trees()
     return fm.union_trees(3, (fm.P,))
 
 
@@ -398,6 +424,12 @@ def run(ctx):
     ctx.scopes = ['all 5986 trees of depth <= 2 over {true,p} x 4 languages x {construct, cast, mixed, modelcheck guard}']
     ctx.exhaustive = True
     f = core.run_sharded(ctx, enum_shard, {'scope': 'd2', 'derived_stride': ctx.pick(3, 1)})
+    if f is not None:
+        ctx.violation(f)
+        return
+    ctx.scopes.append('1512 trees with a subformula hidden in a simplifiable Boolean context under each checker\'s wrappers '
+                      '(false and x, true or x, x and not x, ...): construct / cast / modelcheck guards')
+    f = core.run_sharded(ctx, enum_shard, {'scope': 'hidden', 'derived_stride': 10 ** 9})
     if f is not None:
         ctx.violation(f)
         return
